@@ -30,6 +30,7 @@ for d in sorted(os.listdir(os.path.join(ROOT, "seeded"))):
     if os.path.isfile(mp) and (not only or d in only):
         jobs.put(d)
 lock = threading.Lock()
+build_lock = threading.Lock()
 
 def sh(cmd, **kw):
     return subprocess.run(cmd, shell=True, capture_output=True, text=True, **kw)
@@ -43,6 +44,9 @@ def lane(i):
     sh("rsync -a --exclude bin --exclude .git --exclude work --exclude evidence --exclude replays %s/ %s/" % (ROOT, verif))
     os.makedirs(verif + "/evidence", exist_ok=True)
     env = dict(os.environ, VERIF_REPO=repo, VERIF_WORKERS=workers)
+    with build_lock:
+        # first build of the lane (tool, pop copy, overlay, both binaries), one lane at a time
+        subprocess.run(["./check", "build", "--race"], cwd=verif, env=env, capture_output=True, text=True)
     try:
         while True:
             try:
@@ -67,6 +71,7 @@ def lane(i):
                         oc = "MISSED"
                     else:
                         oc = "TROUBLE"
+                        lines = lines or [("exit %d: " % r.returncode) + (r.stdout + r.stderr)[-300:].replace("\n", " | ")]
                     res[p] = {"outcome": oc, "detail": " ".join(lines[:3])[:400]}
                 sh("git -C %s checkout -- . && git -C %s clean -fdq" % (repo, repo))
             with lock:
